@@ -352,7 +352,7 @@ package vegeta
 //@   requires [decoders-usable] forall k int :: 0 <= k && k < len(dec) ==> dec[k] != nil && 0 <= dpos(dec[k]) && dpos(dec[k]) <= dlen(dec[k])
 //@   requires [decoders-distinct] forall a, b int :: 0 <= a && a < b && b < len(dec) ==> ref(dec[a]) != ref(dec[b])
 //@   assume   [history-length] seq + len(dec) < MaxUint64
-//@   modifies seq, *r
+//@   modifies seq, *r, ghost(rec, r), ghost(dpos, all), ghost(consumed, all), ghost(rto, all)
 //@   ghost chosen int = -1
 //@   at call Decode: ghost chosen = (result == nil ? robin : chosen) ; apply rot_of_tried(old(seq), rangeindex, len(dec))
 //@   ensures [one-record-from-one-input] err == nil ==> 0 <= chosen && chosen < len(dec)
